@@ -236,6 +236,15 @@ func genBlockPlan(seed uint64, thorough bool) *Plan {
 				a = []string{"LMOVE", k, keys[g.r.IntN(len(keys))], g.pick("LEFT", "RIGHT"), g.pick("LEFT", "RIGHT")}
 			case 2:
 				a = []string{"RPOPLPUSH", k, keys[g.r.IntN(len(keys))]}
+			case 3:
+				// a whole list appears under a waited name at once: as many waiters
+				// as it has elements are served
+				st := []string{"RPUSH", "stage" + strconv.Itoa(c)}
+				for j := 0; j <= 1+g.r.IntN(3); j++ {
+					st = append(st, g.val())
+				}
+				items = append(items, Item{Args: bs(st...)})
+				a = []string{"RENAME", "stage" + strconv.Itoa(c), k}
 			default:
 				a = []string{g.pick("LPUSH", "RPUSH"), k}
 				for j := 0; j <= g.r.IntN(3); j++ {
